@@ -93,6 +93,11 @@ var resetCmd = &cobra.Command{
 			return errors.New("only one argument is acceptible. argument format is 'HEAD@{number}'")
 		}
 
+		// reset moves the HEAD commit, so HEAD must point to a commit
+		if client.Head.Commit == nil {
+			return ErrInvalidHEAD
+		}
+
 		// get log record
 		reflog, err := store.NewReflog(client.RootGoitPath, client.Head, client.Refs)
 		if err != nil {
